@@ -6,11 +6,11 @@
 (*                                                                          *)
 (*   Mode = "c09": every state with st = "desc" is one generated scope or   *)
 (*       plugin schema together with its description; invariants            *)
-(*       Describable, FixedPoint, SameBehaviour, MinimalSame.               *)
+(*       Describable0, FixedPoint0, SameBehaviour0, MinimalSame.            *)
 (*   Mode = "c10": Init picks a valid description of the C09 universe or a  *)
 (*       grammar-free tree, Mutate applies up to MaxMut structural          *)
 (*       mutations, then Accept / Link / Use step through the load;         *)
-(*       invariant AcceptedImpliesUsable.                                   *)
+(*       invariant AcceptedImpliesUsable0.                                  *)
 (***************************************************************************)
 EXTENDS Meta, Export
 \* TLC orders record fields by first occurrence in the root module: tags first.
@@ -328,9 +328,10 @@ MinimalSame    == (IsCase /\ Mode = "c09") =>
                       /\ Rebuild(tgt, MinimalTop(tgt, d)) = Rebuild(tgt, d)
 \* C10 on the model: a description that made it through the three steps is fully usable (declarative
 \* reading), and one that did not is turned down with an error at one of them
-AcceptedImpliesUsable ==
+AcceptedImpliesUsable0 ==
     LET c == Classify(tgt, d) IN
     CASE pp # NoPick -> TRUE
+      [] st = "desc"     -> AcceptedImpliesUsable(tgt, d)
       [] st = "returned" -> c.stage = "usable" /\ Usable(Rebuild(tgt, d))
       [] st = "linked"   -> c.stage \in {"first_use", "usable"}
       [] st = "accepted" -> c.stage # "accept"
